@@ -186,6 +186,9 @@ type RecCM struct {
 	*chain.Manager
 
 	Gate *Gate
+	// HoldServe makes the gate hold every BlocksForHistory call (key "serve"),
+	// tagged or not.
+	HoldServe bool
 	// KeysFor names the gate keys (peer, subnet) of a tagged request.
 	KeysFor func(peer int) []string
 
@@ -241,7 +244,11 @@ func (c *RecCM) guard(peer int) func() {
 
 // BlocksForHistory implements syncer.ChainManager.
 func (c *RecCM) BlocksForHistory(history []types.BlockID, max uint64) ([]types.Block, uint64, error) {
-	if c.Gate != nil {
+	if c.Gate != nil && c.HoldServe {
+		// hold every block request (a node that is slow to serve)
+		c.Gate.Enter("serve")
+		defer c.Gate.Exit("serve")
+	} else if c.Gate != nil {
 		for _, id := range history {
 			if peer, _, ok := ParseTagID(id); ok {
 				defer c.guard(peer)()
